@@ -104,6 +104,7 @@ fn parse_levels(s: &str) -> Vec<Level> {
                 decls: 0,
                 flaky: false,
                 after_fail: false,
+                pairs: false,
             };
             let cs: Vec<char> = l.chars().collect();
             let mut i = 0;
@@ -122,6 +123,7 @@ fn parse_levels(s: &str) -> Vec<Level> {
                     'm' => lv.misuse = true,
                     'k' => lv.flaky = true,
                     'x' => lv.after_fail = true,
+                    't' => lv.pairs = true,
                     '-' => {}
                     x => panic!("bad level letter {}", x),
                 }
